@@ -365,8 +365,64 @@ def oracle_corners(ctx):
             'rule': 'fixed witnesses: link named *.log to *.gz; file name not UTF-8; *.tar below a non-UTF-8 directory'}
 
 
+TAR_MEMBERS = ['app.log', 'dump.bin', 'run.sh', 'index.html', 'sub/inner.log', 'sub/deep/x.txt', 'pic.png', 'messages', 'notes.md', 'data.json',
+               'core.1', 'old.log.1', 'Mixed.LOG', 'lib.so', 'm.zip']
+
+
+def oracle_tars(ctx, n):
+    """populated .tar archives below a directory: `s4 DIR` must expand them exactly as naming the archive does
+    (every regular member attempted), whatever the members' suffixes"""
+    import io
+    import tarfile
+    rng = e2e.Rng(ctx.seed * 67 + 9)
+    fails, ev, distinct = [], 0, set()
+    for k in range(n):
+        work = os.path.join(ctx.work, 'c15t_%d' % k)
+        shutil.rmtree(work, ignore_errors=True)
+        sub = rng.pick(['', 'a', 'a/b', 'sub dir'])
+        base = os.path.join(work, 'd', sub) if sub else os.path.join(work, 'd')
+        os.makedirs(base)
+        names = []
+        tr = Tree()
+        for fn in rng.shuffle(['a.log', 'z.log', 'm.log'])[:rng.range(0, 2)]:
+            write_file(rng, os.path.join(base, fn), fn, tr.tag())
+            names.append(fn)
+        desc = []
+        for ti in range(rng.range(1, 2)):
+            tname = rng.pick(['bundle.tar', 'logs.tar', 'b.tar', 'x.TAR'])
+            if tname in names:
+                continue
+            members = rng.shuffle(TAR_MEMBERS)[:rng.range(1, 5)]
+            with tarfile.open(os.path.join(base, tname), 'w', format=rng.pick([tarfile.USTAR_FORMAT, tarfile.GNU_FORMAT])) as tf:
+                for m in members:
+                    data = file_bytes(rng, m, tr.tag()) if not rng.chance(1, 10) else b''
+                    ti_ = tarfile.TarInfo(m)
+                    ti_.size = len(data)
+                    ti_.mtime = 1700000000
+                    tf.addfile(ti_, io.BytesIO(data))
+            names.append(tname)
+            desc.append((tname, members))
+        distinct.add(str(desc))
+        rel = ('d/' + sub + '/') if sub else 'd/'
+        kept = sorted((rel + x for x in names), key=lambda q: tuple(c.encode() for c in q.split('/')))
+        rc_a, out_a, err_a = run_s4(['d'], work)
+        rc_b, out_b, err_b = run_s4(kept, work)
+        rc_c, out_c, _ = run_s4(['-'], work, stdin=('\n'.join(kept) + '\n').encode())
+        ev += 3
+        case = {'tree': {'dir': rel, 'files': names, 'tars': desc}}
+        if (rc_a, out_a) != (rc_b, out_b):
+            fails.append({'signature': 'walk:dir-vs-explicit-differs', 'case': case,
+                          'detail': f'tar below a directory: `s4 d` rc {rc_a} {out_a.count(10)} lines vs explicit rc {rc_b} {out_b.count(10)} lines; ' + first_diff(out_a, out_b)})
+        if (rc_c, out_c) != (rc_b, out_b):
+            fails.append({'signature': 'walk:stdin-vs-args-differs', 'case': case, 'detail': 'tar named on stdin: ' + first_diff(out_c, out_b)})
+        shutil.rmtree(work, ignore_errors=True)
+    return {'evaluations': ev, 'distinct_nontrivial': len(distinct), 'failures': fails, 'samples': [],
+            'rule': f'{n} directories holding 1-2 populated .tar archives (1-5 members out of log, non-log-suffix, nested, empty; ustar/gnu) next to plain logs: '
+                    'stdout and exit status of `s4 DIR` == `s4 <sorted explicit paths>` == the same paths on stdin'}
+
+
 def oracle(ctx):
-    return core.merge_oracles([oracle_trees(ctx, ctx.q(25, 250)), oracle_hidden(ctx, ctx.q(10, 80)), oracle_corners(ctx)])
+    return core.merge_oracles([oracle_trees(ctx, ctx.q(25, 250)), oracle_hidden(ctx, ctx.q(10, 80)), oracle_corners(ctx), oracle_tars(ctx, ctx.q(12, 100))])
 
 
 def check(ctx):
